@@ -174,8 +174,26 @@ def init_delegates(ctx: Ctx) -> None:
         ok = len(upd) == 1
         if ok:
             ex = upd[0].extra or {}
-            star = [x.value if isinstance(x, SSplat) else None for x in (upd[0].value or [])]
-            ok = any(x is va for x in star) and any(d is kw for d in (ex.get("dstar") or []))
+
+            def _flat(xs: Any, depth: int = 0) -> List[str]:
+                out: List[str] = []
+                for x in xs or []:
+                    v_ = x.value if isinstance(x, SSplat) else x
+                    if v_ is va:
+                        out.append("VA" if isinstance(x, SSplat) else "?")
+                    elif v_ is kw:
+                        out.append("KW" if not isinstance(x, SSplat) else "?")
+                    elif isinstance(x, SSplat) and isinstance(v_, SList) and v_.mode == "concrete" and depth < 3:
+                        out += _flat(v_.items, depth + 1)
+                    else:
+                        out.append("?")
+                return out
+            seq = _flat(upd[0].value)
+            kw_star = any(d is kw for d in (ex.get("dstar") or []))
+            kw_empty = any(isinstance(a_, tuple) and a_[0] in ("nonempty", "truthy", "truthy-kind") and a_[1] == kw.uid and not v_ for a_, v_ in l.atoms)
+            # update(*args, **kwargs), or the keywords handed over as one more mapping after the positional ones (update() itself
+            # treats them that way), or left out on the path where there are none
+            ok = (seq == ["VA"] and (kw_star or kw_empty)) or (seq == ["VA", "KW"] and not kw_star)
         other = [e for e in l.effects if (e.kind in ("store_item", "mutcall", "basecall") and e.target is s and not (e.kind == "basecall" and str(e.key).endswith("__init__")))
                  or (e.kind == "call" and getattr(e.target, "qual", "") == "TagAttrDict.__setitem__")]
         labels = [str(lbl) for _, lbl in l.atoms][:3]
@@ -356,6 +374,10 @@ def partition_obligations(ctx: Ctx) -> None:
         d = items[0]
         okd = isinstance(d, SDict) and isinstance(d.__dict__.get("copy_of"), SObj) and (d.__dict__["copy_of"].meta.get("attr_of") or (None, None))[1] == "attrs" \
             and news and d.__dict__["copy_of"].meta["attr_of"][0] is news[0]
+        if not okd and isinstance(d, SDict) and not d.items and len(d.dstar or []) == 1:
+            # attrs = {**tag.attrs}
+            src_ = d.dstar[0]
+            okd = isinstance(src_, SObj) and (src_.meta.get("attr_of") or (None, None))[1] == "attrs" and bool(news) and src_.meta["attr_of"][0] is news[0]
         if not okd and isinstance(d, SDict) and not d.concrete:
             # attrs = {}; for k, v in tag.attrs.items(): attrs[k] = v
             from ..loopbuilt import contributions, iter_base
